@@ -52,6 +52,8 @@ func runC02(e *Env) {
 	ruleGroupValue(e, "C02.value", romanDigits)
 	e.S.Floor("C02.value", 40)
 	ruleDeleg(e, "C02.deleg", "roman")
+	ruleLimit(e, "C02.limit", "roman")
+	e.S.Floor("C02.limit", 4)
 	e.S.Floor("C02.tab", 36)
 	e.S.Floor("C02.decomp", 6)
 	e.S.Floor("C02.alpha", 36)
